@@ -680,3 +680,33 @@ def in_cycle(body, bb, cut_blocks=()):
     """block bb lies on a cycle (it can be reached again after leaving it) that avoids cut_blocks"""
     cut = list(cut_blocks)
     return any(bb in body.reach(t, cut_blocks=cut) for t, _l in body.succ(bb) if t not in cut)
+
+
+def through_bool_join(body, edges):
+    """`matches!(..)` / `a && b` lower to arms that assign a constant to a bool temporary and join at a switch on it.
+    For an edge whose target only assigns such a constant and falls through to that switch, return the edge of the
+    switch the constant selects (so that a path-insensitive search does not take the other one)."""
+    out = []
+    for (a, t) in edges:
+        cur, val, guard = t, {}, 0
+        res = (a, t)
+        while guard < 6:
+            guard += 1
+            blk = body.blocks[cur]
+            for st in blk["s"]:
+                v = st.get("v")
+                if v and v.get("r") == "use" and isinstance(v.get("o"), dict) and v["o"].get("k") in ("true", "false") and st.get("a") and len(st["a"]) == 1:
+                    val[st["a"][0]] = v["o"]["k"] == "true"
+            tt = blk["t"]
+            if tt["t"] in ("goto", "false_edge"):
+                cur = tt["to"]
+                continue
+            if tt["t"] == "switch":
+                si = body.switch_info(cur)
+                if si and si["kind"] == "bool":
+                    pl = si["op"].get("m") or si["op"].get("c")
+                    if pl and len(pl) == 1 and pl[0] in val:
+                        res = (cur, si["true"] if val[pl[0]] else si["false"])
+            break
+        out.append(res)
+    return out
